@@ -52,6 +52,13 @@
 //	    overshooting function are drawn, bump deltas -2..6)                 -> tag-total/value, lower-valued-kept/*
 //	S3a UpsertTag: callback run outside the segment lock, stale old value applied (missed while the callback
 //	    had no scheduling point and every peer had one writer)              -> tag-total/value-vs-tags (every worker, <= 250 runs each)
+//	clock-jump mutants (private overlay copies, 8 workers, 30 s; every worker caught each)
+//	MJ1  grace measured on monotonic time (wall at construction + time.Since): blind to jumps
+//	                                                                       -> left-above-low/*, lower-valued-kept/* (jump runs only)
+//	MJ2a getConnsToClose uses the Now() read by the previous trim           -> left-above-low/*, lower-valued-kept/*
+//	MJ2b Now() cached and refreshed once per second of monotonic time (invisible without a jump)
+//	                                                                       -> left-above-low/TrimOpenConns, lower-valued-kept/TrimOpenConns
+//	MJ3  decayer: nextTick never advanced (decays at every resolution tick) -> decay/more-often-than-wall-time
 //	S3b Unprotect: read-locked fast path working on the set fetched before the write lock (three-way race of
 //	    Protect/Unprotect callers on one peer)                              -> protect-state (sampled and at quiescence),
 //	    closed-protected/TrimOpenConns (about 1 run in 1 500: 6 of 8 workers within 30 s)
@@ -93,6 +100,21 @@
 //     the history (every tag operation updates tag and total together) — this is the only tag oracle for
 //     peers written by several tasks (shared-peer mode), whose tag values depend on the linearisation.
 //   - UpsertTag's callback is caller code and may take time: it contains 0-3 scheduling points.
+//   - CLOCK JUMPS (fault stratum, drawn right after the stratum, one run in three): the manager's and the
+//     decayer's injected clock is jumpClock — Now()/Since()/Until() = bubble time + an offset that jumps
+//     forward (1 s, 30 s, grace-1 s, grace+1 s, 10 min, 3 h) at drawn points of the history, while
+//     tickers/timers stay on bubble time (nothing fires during a jump, everything armed before is late by
+//     it): suspend/resume. Every time-dependent clause is judged in WALL time: first-seen instants,
+//     connection times, "inside the grace period" (at the wall time of the close; a peer is a kept eligible
+//     one if it was past the grace period in wall time when the trim was invoked — background trims: at the
+//     start of the instant), early-tag entries droppable from grace in wall time. The statement says nothing
+//     about the silence period or about how late the background trim or a decay tick may be: probes only
+//     (decay-applied-after-clock-jump, eligible-only-by-wall-time-after-clock-jump,
+//     closed-peer-eligible-only-by-wall-time). Decay (Decayer documentation: the function is called "at the
+//     interval supplied when registering the tag"), weakest sound reading: the k-th application of a tag's
+//     decay function to one peer's value needs k whole intervals of wall time since the tag was registered
+//     (never more often than wall time allows; late or skipped is allowed), and the value reported is the
+//     one the function returned (tag-total/tags).
 //   - Under concurrency (and for background trims, whose start is not observable) a peer takes part
 //     in a comparison only if no operation that can change the compared attribute overlaps the
 //     trim window (stamps), and whole-population bounds are only asserted when no operation that
@@ -154,6 +176,7 @@ type mpeer struct {
 	exists    bool                     // the manager has an entry (tags and/or connections)
 	temp      bool                     // entry created by a tag operation, no connection yet
 	firstSeen time.Duration
+	fsOff     time.Duration // sum of the clock jumps when firstSeen was taken (reach probes only)
 	prot      map[string]bool
 
 	unc      bool // tags/value/first-seen are ambiguous (overlapping operations whose order decides the result)
@@ -379,6 +402,7 @@ type psnap struct {
 	exists    bool
 	temp      bool
 	firstSeen time.Duration
+	fsOff     time.Duration // sum of the clock jumps when firstSeen was taken (reach probes only)
 	conns     []*sconn
 }
 
@@ -393,12 +417,13 @@ var kindName = []string{"TrimOpenConns", "ForceTrim", "background-trim"}
 type trimRec struct {
 	kind       int
 	who        string
-	inv, ret   uint64 // window in stamps (background: start of the virtual instant .. last close)
-	last       uint64 // stamp of the last close
+	inv, ret   uint64        // window in stamps (background: start of the virtual instant .. last close)
+	last       uint64        // stamp of the last close
 	invT, retT time.Duration // wall time
 	monoT      time.Duration // background trims: bubble time of the instant
-	precise    bool // window is known to contain the whole trim
-	count      int  // model connection count at the snapshot
+	off        time.Duration // sum of the clock jumps at the snapshot (reach probes only)
+	precise    bool          // window is known to contain the whole trim
+	count      int           // model connection count at the snapshot
 	snap       []psnap
 	closes     []closeRec
 }
@@ -563,7 +588,7 @@ func (h *H) tempRisk(mp *mpeer) {
 
 func (h *H) ensure(mp *mpeer) {
 	if !mp.exists {
-		mp.exists, mp.temp, mp.firstSeen = true, true, h.now()
+		mp.exists, mp.temp, mp.firstSeen, mp.fsOff = true, true, h.now(), h.offset
 	}
 }
 
@@ -574,7 +599,7 @@ func (h *H) mConnected(c *sconn) {
 	}
 	if len(mp.conns) == 0 {
 		if !mp.exists || mp.temp {
-			mp.firstSeen = h.now()
+			mp.firstSeen, mp.fsOff = h.now(), h.offset
 		}
 		mp.exists, mp.temp = true, false
 	}
@@ -631,11 +656,12 @@ func (h *H) flush() {
 
 func (h *H) snapshot(rec *trimRec) {
 	rec.count = h.count
+	rec.off = h.offset
 	rec.snap = make([]psnap, len(h.peers))
 	for i, mp := range h.peers {
 		h.tempRisk(mp)
 		rec.snap[i] = psnap{value: mp.value(), unc: mp.unc, exists: mp.exists, temp: mp.temp,
-			firstSeen: mp.firstSeen, conns: mp.sortedConns()}
+			firstSeen: mp.firstSeen, fsOff: mp.fsOff, conns: mp.sortedConns()}
 	}
 }
 
@@ -1027,6 +1053,21 @@ func (h *H) decayFn(sp *dtagSpec) coreconnmgr.DecayFn {
 		h.touch()
 		after, rm := inner(v)
 		h.o.Probe("decay-tick-applied")
+		// Decayer documentation: the decay function is called "at the interval supplied when registering the
+		// tag". Weakest sound reading under late ticks (clock jumps): never more often than elapsed WALL time
+		// allows — the k-th application to one peer's value needs k whole intervals since the tag was
+		// registered (at the start of the run). How late a tick may be is not stated: a probe.
+		key := string(v.Peer) + "/" + sp.name
+		h.nDecay[key]++
+		if k := h.nDecay[key]; time.Duration(k)*sp.interval > h.now() {
+			name := string(v.Peer)
+			if mp := h.byID[v.Peer]; mp != nil {
+				name = mp.name
+			}
+			h.o.Violate("C14/decay/more-often-than-wall-time", "decay function of %s (interval %v) called for the %d. time for %s at wall +%v", sp.name, sp.interval, k, name, h.now())
+		} else if h.offset > 0 {
+			h.o.Probe("decay-applied-after-clock-jump") // its tick was armed before the jump: late by the jump in wall time
+		}
 		if rm && after != 0 {
 			h.o.Probe("decay-removed-with-nonzero-after")
 		}
@@ -1787,6 +1828,13 @@ func (h *H) checkTrims() {
 				}
 				if len(s.conns) > 0 && h.inGraceAt(s, r.invT) {
 					o.Probe("trim-with-peer-in-grace-above-low")
+				}
+				if len(s.conns) > 0 && h.grace > 0 && h.pastGraceAt(s, r.invT) && (r.invT-r.off)-(s.firstSeen-s.fsOff) < h.grace {
+					// past the grace period in wall time only: timers have not seen that much time pass
+					o.Probe("eligible-only-by-wall-time-after-clock-jump")
+					if firstClose[mp] != 0 {
+						o.Probe("closed-peer-eligible-only-by-wall-time")
+					}
 				}
 				if len(s.conns) > 1 && firstClose[mp] != 0 {
 					o.Probe("multi-conn-peer-closed")
